@@ -380,6 +380,12 @@ fn check(c: &Case, rep: &mut Rep) -> Result<(), String> {
     rep.label_if(sel.is_empty(), "empty_selection");
     rep.label_if(sel.len() == n, "everything_selected");
     let cross_tie = all.windows(2).any(|w| w[0].reception_time_us == w[1].reception_time_us && w[0].ecu != w[1].ecu);
+    // messages of different files with the same reception time: their relative order is the implementation's choice
+    // (it only must not depend on the order of the file arguments). Where indices or lifecycle ids - which follow
+    // that order - select, the selection itself is not determined by the statement.
+    let cuts = |i: usize| i > 0 && i < n && all[i - 1].reception_time_us == all[i].reception_time_us && all[i - 1].ecu != all[i].ecu;
+    let selection_ambiguous = cross_tie && (window.map_or(false, |(b, e)| cuts(b as usize) || cuts(e as usize + 1)) || lcs.is_some());
+    rep.label_if(selection_ambiguous, "selection_depends_on_tie_order");
     rep.nontrivial = (active >= 2 && !sel.is_empty() && sel.len() < n) || (cross_tie && files.len() >= 3 && !sel.is_empty());
 
     let name_args = |order: &[usize]| -> Vec<String> { order.iter().map(|i| sb.path(&files[*i].name).to_string_lossy().into_owned()).collect() };
@@ -415,6 +421,27 @@ fn check(c: &Case, rep: &mut Rep) -> Result<(), String> {
                     ensure!(ca < cb || (ca == cb && w[0] < w[1]), "--sort: message {} (time {}) printed before message {} (time {})", w[0], ca, w[1], cb);
                 }
             }
+        } else if selection_ambiguous {
+            // only what holds for every tie order: each printed line is an input message, none twice
+            let mut g: Vec<&str> = got_lines.iter().map(|l| l.split_once(' ').map_or("", |x| x.1)).collect();
+            let allowed: Vec<String> = all.iter().map(|m| expected_line(m, style)).collect();
+            let mut a: Vec<&str> = allowed.iter().map(|l| l.split_once(' ').map_or("", |x| x.1)).collect();
+            g.sort();
+            a.sort();
+            let mut ai = 0;
+            for l in &g {
+                while ai < a.len() && a[ai] < *l {
+                    ai += 1;
+                }
+                ensure!(ai < a.len() && a[ai] == *l, "convert {:?}: printed line {:?} is no input message (or printed more often than it occurs)", args, l);
+                ai += 1;
+            }
+        } else if cross_tie {
+            // same messages; order compared bucket-wise (index column left out: it follows the tie order)
+            let strip = |v: &Vec<String>| -> Vec<String> { let mut x: Vec<String> = v.iter().map(|l| l.split_once(' ').map_or(String::new(), |x| x.1.to_string())).collect(); x.sort(); x };
+            ensure!(strip(&got_lines) == strip(&exp_lines), "convert {:?}: printed messages are not the selected ones (as multiset, index column ignored): got {} lines expected {}", args, got_lines.len(), exp_lines.len());
+            let times = |v: &Vec<String>| -> Vec<String> { v.iter().map(|l| l.split(' ').skip(1).take(2).collect::<Vec<_>>().join(" ")).collect() };
+            ensure!(times(&got_lines) == times(&exp_lines), "convert {:?}: printed messages are not in reception time order", args);
         } else {
             if got_lines != exp_lines {
                 let first = got_lines.iter().zip(exp_lines.iter()).position(|(a, b)| a != b).unwrap_or(std::cmp::min(got_lines.len(), exp_lines.len()));
@@ -444,10 +471,12 @@ fn check(c: &Case, rep: &mut Rep) -> Result<(), String> {
     if want_out {
         let data = std::fs::read(&out_file).map_err(|e| format!("-o file not written: {}", e))?;
         let outm: Vec<DltMessage> = DltMessageIterator::new(0, std::io::Cursor::new(&data[..])).collect();
-        ensure_eq!(outm.len(), sel.len(), "convert {:?}: number of messages in the -o file vs selection", args);
-        let mut a: Vec<&DltMessage> = outm.iter().collect();
-        let mut b: Vec<&DltMessage> = sel.clone();
-        if sort {
+        if !selection_ambiguous {
+            ensure_eq!(outm.len(), sel.len(), "convert {:?}: number of messages in the -o file vs selection", args);
+        }
+        let mut a: Vec<&DltMessage> = if selection_ambiguous { vec![] } else { outm.iter().collect() };
+        let mut b: Vec<&DltMessage> = if selection_ambiguous { vec![] } else { sel.clone() };
+        if sort || cross_tie {
             let k = |m: &&DltMessage| (m.reception_time_us, m.ecu.as_u32le(), m.timestamp_dms, m.mcnt(), m.payload.clone());
             a.sort_by_key(k);
             b.sort_by_key(k);
